@@ -356,6 +356,7 @@ func genC10(e *emitter, r *rng, thorough bool) {
 		v.Mod(v, fldP)
 		emitValueOps("normalised-random", wordsOf(v))
 	}
+	genPredicates(e, r, g, scale)
 }
 
 // ---------------------------------------------------------------------------------------------
@@ -552,6 +553,11 @@ func genC09(e *emitter, r *rng, thorough bool) {
 	}
 	e.emit("inv.full.ooc", "field.inv "+fvStr(g.full()))
 	e.emit("sqrt.full.ooc", "field.sqrt "+fvStr(g.full()))
+	genPredicates(e, r, g, scale)
+}
+
+// equality / zero / parity tests, incl. pairs that differ in exactly one word (each of the ten)
+func genPredicates(e *emitter, r *rng, g vecs, scale int) {
 	// --- predicates
 	for k := 0; k < 40*scale; k++ {
 		a, ka := g.any(uint64(1 + r.intn(3)))
@@ -581,6 +587,14 @@ func genC09(e *emitter, r *rng, thorough bool) {
 	e.emit("iszero.P-denormalised", "field.iszero "+fvStr(wordsOf(fldP)))
 	e.emit("eq.zero-vs-P-denormalised", "field.eq "+fvStr(fv{})+" "+fvStr(wordsOf(fldP)))
 	e.emit("eqself", "field.eqself "+fvStr(g.full()))
+	for i := 0; i < 10; i++ {
+		a := g.random(1)
+		b := a
+		b[i] ^= 1 << uint(r.intn(22))
+		e.emit("eq.one-word-differs", "field.eq "+fvStr(a)+" "+fvStr(b))
+		// normalised values that differ only in word i
+		e.emit("eq.one-word-differs.norm", "field.eq "+fvStr(fieldOp("normalise", a, fv{}, 0))+" "+fvStr(fieldOp("normalise", b, fv{}, 0)))
+	}
 }
 
 // ---------------------------------------------------------------------------------------------
